@@ -169,7 +169,29 @@ fn run_one(prop: &mut dyn Prop, idx: u64, rng: &mut Rng, ctx: &mut Ctx) {
     }
 }
 
+/// `vh script [quantum]`: stdin lines are typed at the prompt (INPUT replies when asked); prints the transcript.
+fn script() {
+    use std::io::BufRead;
+    let q: usize = std::env::args().nth(2).and_then(|s| s.parse().ok()).unwrap_or(5000);
+    let mut s = drive::Session::with_quantum(q);
+    s.drain(16);
+    let mark = s.mark();
+    for line in std::io::stdin().lock().lines() {
+        let line = line.unwrap_or_default();
+        if line == "<BREAK>" {
+            s.interrupt();
+        } else {
+            s.enter(&line);
+        }
+        s.drain(2000);
+    }
+    println!("{}", drive::transcript(s.events_since(mark), drive::Norm { raw_errors: true, drop_ready: false }));
+}
+
 fn main() {
+    if std::env::args().nth(1).as_deref() == Some("script") {
+        return script();
+    }
     let a = parse_args();
     // 8 MiB, the size of the main thread's stack in the real binary
     let h = std::thread::Builder::new()
